@@ -848,12 +848,15 @@ impl Mp4TrackWriter {
         self.update_sample_times(sample.duration);
         self.update_rendering_offsets(sample.rendering_offset);
         self.update_sync_samples(sample.is_sync);
+        self.update_durations(sample.duration, movie_timescale);
+
+        // Finish the bookkeeping before touching the stream: if the chunk flush fails the
+        // sample stays buffered and accounted for, and later calls see a consistent state.
+        self.sample_id += 1;
+
         if self.is_chunk_full() {
             self.write_chunk(writer)?;
         }
-        self.update_durations(sample.duration, movie_timescale);
-
-        self.sample_id += 1;
 
         Ok(self.trak.tkhd.duration)
     }
@@ -874,7 +877,7 @@ impl Mp4TrackWriter {
             first_chunk: chunk_id,
             samples_per_chunk: self.chunk_samples,
             sample_description_index: 1,
-            first_sample: self.sample_id - self.chunk_samples + 1,
+            first_sample: self.sample_id - self.chunk_samples,
         };
         self.trak.mdia.minf.stbl.stsc.entries.push(entry);
     }
